@@ -325,6 +325,15 @@ func generate(rnd *rand.Rand, thorough bool) []*Prog {
 				}
 			}
 		}
+		// memory.init from the 64-byte passive segment: destination ranges at every boundary of the memory and of the
+		// 32-bit address space, source ranges at the boundary of the segment
+		for _, d := range []int64{0, 16, l - 32, l - 31, l - 1, l, l + 1, 0x7ffffff0, 0x80000000, 0xffffffe0, 0xfffffff0, 0xffffffff} {
+			for _, sn := range [][2]int64{{0, 32}, {0, 64}, {32, 32}, {33, 32}, {0, 65}, {63, 1}, {64, 0}, {64, 1}, {0, 0}, {0, 1}, {0xffffffff, 1}, {1, 0xffffffff}} {
+				if u32ok(d) && u32ok(sn[0]) && u32ok(sn[1]) {
+					mk("init", 0, 0, Stmt{K: "init", D: uint32(d), S: uint32(sn[0]), N: uint32(sn[1])})
+				}
+			}
+		}
 	}
 	// dedupe identical programs
 	seen := map[string]bool{}
